@@ -21,7 +21,9 @@ REG = {
     "minov": {"op": "reg_fn", "name": "min", "beh": {"id": 505, "ret": "tag"}},
     "sumov": {"op": "reg_fn", "name": "sum", "beh": {"id": 506, "ret": "tag"}},
 }
-FNS = {"last": {"id": 9, "log": False, "ret": "last"}}
+FNS = {"last": {"id": 9, "log": False, "ret": "last"},
+       # function-valued names: `fee` read as a bare name calls the function with no arguments
+       "fee": {"id": 10, "log": False, "ret": "const", "v": ["n", "3", 0]}, "rate": {"id": 11, "log": False, "ret": "const", "v": ["n", "12", 0]}, "quota": {"id": 12, "log": False, "ret": "const", "v": ["n", "25", 1]}}
 PFN = {"op": "reg_fn", "name": "pfn", "beh": {"id": 599, "ret": "last"}}
 
 
@@ -77,6 +79,8 @@ def make_pool(rnd, n):
         vars_ = {"amount": ["n", "50000", 0]}
         pool.append((tmpl % (da + rest), vars_))
         pool.append((tmpl % (db + rest), vars_))
+    for text in ["base + fee", "fee * 2", "fee", "rate + quota", "fee(1) + fee", "x = fee; x + fee", "[fee, rate, fee]", "fee + nosuch", "rate = rate + 1; rate", "fee == 3 ? quota : rate"]:
+        pool.append((text, {"base": ["n", "10", 0]}))
     # a registered function that panics when asked to (fault injection): other evaluations must not notice
     pool.append(("pfn(1)", {}))
     return pool
@@ -99,11 +103,88 @@ def run_alone(wd, name, profile, text, vars_, regs):
     return cmp_fields(st[-1]) if run.ended and st else None
 
 
+INNER = ["price(5)", "base + fee", "[price(1), fee, tax]", "x = price(2); [x, fee]", "price(price(1)) ; fee + tax", "tax ; price(9)"]
+OUTER = ["[price(1), quote(2), price(3)]", "[quote(2), price(1), fee]", "[fee, quote(1), fee, tax]", "quote(price(1)) ; [price(2), fee]", "tax == 0 ; [quote(0), tax]", "[quote(1), quote(2), price(0)]"]
+B_FNS = {"price": {"id": 702, "ret": "tag"}, "fee": {"id": 704, "ret": "const", "v": ["n", "3", 0]}, "tax": {"id": 706, "ret": "const", "v": ["s", "inner"]}}
+A_FNS = {"price": {"id": 701, "ret": "tag"}, "fee": {"id": 703, "ret": "const", "v": ["n", "7", 0]}, "tax": {"id": 705, "ret": "const", "v": ["s", "outer"]}}
+
+
+def nested_runs(si, profile, part):
+    """an evaluation nested inside another one (a handler of the outer program evaluates another program on a second, separate
+    context that binds functions under the same names): both must give what they give alone"""
+    wd = common.workdir(PROP)
+    B = 1000001
+    for ii, inner in enumerate(INNER):
+        for oi, outer in enumerate(OUTER):
+            if (ii * len(OUTER) + oi) % 16 != (si - 800) % 16:
+                continue
+            for via in ("cfn", "gfn", "prefix"):
+                if (ii + oi) % 2 and via != "cfn":
+                    continue
+                otext = outer if via != "prefix" else outer.replace("quote(", "(quote ")
+                ctx_b = {"op": "ctx", "id": B, "vars": {"base": ["n", "10", 0]}, "fns": B_FNS}
+                quote_plain = {"id": 710, "ret": "last"}
+                quote_nest = {"id": 710, "ret": "last", "reenter": {"act": "exec_shared", "ctx": B, "text": inner}}
+
+                def outer_steps(qb):
+                    st = []
+                    fns = dict(A_FNS)
+                    if via == "cfn":
+                        fns["quote"] = qb
+                    elif via == "gfn":
+                        st.append({"op": "reg_fn", "name": "quote", "beh": qb})
+                    else:
+                        st.append({"op": "reg_prefix", "name": "quote", "beh": qb})
+                    st.append({"op": "ctx", "id": 1, "vars": {"base": ["n", "20", 0]}, "fns": fns})
+                    st.append({"op": "exec", "ctx": 1, "text": otext, "want": "ae"})
+                    return st
+
+                name = "nest-%d-%d-%d-%s-%s" % (si, ii, oi, via, profile)
+                r_in = common.run_vexec([ctx_b, {"op": "exec", "ctx": B, "text": inner, "want": "ae"}], wd, name + "-in", profile)
+                r_out = common.run_vexec(outer_steps(quote_plain), wd, name + "-out", profile)
+                steps = [ctx_b] + outer_steps(quote_nest) + [{"op": "exec", "ctx": B, "text": inner, "want": "ae"}] + outer_steps(quote_nest)[-1:]
+                r_n = common.run_vexec(steps, wd, name + "-n", profile)
+                if not (r_in.ended and r_out.ended and r_n.ended):
+                    kind_, detail = common.crash_verdict(r_n, "nested evaluation")
+                    if kind_ in ("signal", "hang", "deadlock"):
+                        part["violations"].append({"sig": ["crash", kind_, "nested"], "what": "nested evaluation: " + detail, "replay": None})
+                    else:
+                        part["inconclusive"].append("nested run did not finish")
+                    continue
+                a_in = cmp_fields(r_in.steps()[-1])
+                a_out = cmp_fields(r_out.steps()[-1])
+                sn = r_n.steps()
+                outer_rec, inner_after, outer_again = sn[-3], sn[-2], sn[-1]
+                nested_res = [e["re"]["res"] for e in outer_rec.get("log", []) if "re" in e]
+                part["evaluations"] += 3 + len(nested_res)
+                part["counts"]["nested_evaluations"] = part["counts"].get("nested_evaluations", 0) + len(nested_res)
+                bad = []
+                if not nested_res:
+                    bad.append("the handler never ran its nested evaluation")
+                for nr in nested_res:
+                    if nr != a_in.get("res"):
+                        bad.append("the nested evaluation of `%s` gave %s, alone it gives %s" % (inner, json.dumps(nr), json.dumps(a_in.get("res"))))
+                for what, rec in (("the outer evaluation", outer_rec), ("the outer program evaluated once more", outer_again)):
+                    g = cmp_fields(rec)
+                    if g.get("res") != a_out.get("res") or g.get("snap") != a_out.get("snap"):
+                        bad.append("%s of `%s` gave %s / %s, with a handler that evaluates nothing it gives %s / %s" % (what, otext, json.dumps(g.get("res")), json.dumps(g.get("snap")), json.dumps(a_out.get("res")), json.dumps(a_out.get("snap"))))
+                if cmp_fields(inner_after).get("res") != a_in.get("res"):
+                    bad.append("`%s` evaluated on the second context after the nested run gave %s, alone %s" % (inner, json.dumps(inner_after.get("res")), json.dumps(a_in.get("res"))))
+                if bad:
+                    part["violations"].append({"sig": ["nested-evaluation-differs", via, ii, oi], "what": "outer program `%s` whose %s handler `quote` evaluates `%s` on a second context binding the same function names: %s" % (otext, via, inner, "; ".join(bad)[:900]), "replay": None})
+                else:
+                    part["classes"].add("nested:%s:i%d:o%d" % (via, ii, oi))
+
+
 def run_shard(desc):
     si, nhist, profile = desc
     rnd = common.rng(PROP, si)
     wd = common.workdir(PROP)
     part = {"evaluations": 0, "classes": set(), "violations": [], "samples": [], "abstained": 0, "inconclusive": [], "counts": {"histories": 0, "alone_runs": 0, "sequential_steps": 0, "threaded_steps": 0, "kept_ast_runs": 0, "parse_only_steps": 0}}
+    if 800 <= si < 900:
+        nested_runs(si, profile, part)
+        part["classes"] = sorted(part["classes"])
+        return part
     pool = make_pool(rnd, 60)
     alone = {}
 
@@ -260,6 +341,7 @@ def run(rep, tier):
     common.build("release")
     nh = 48 if tier == "quick" else 1200
     shards = [(i, nh // 16, "release" if i % 2 else "verifdbg") for i in range(16)]
+    shards += [(800 + i, 1, "release" if i % 2 else "verifdbg") for i in range(16)] + [(816 + i, 1, "verifdbg" if i % 2 else "release") for i in range(16)]  # nested evaluations on a second context
     shards += [(900, 1, "release"), (901, 1, "verifdbg")]  # two long histories (thresholds that need thousands of evaluations)
     for part in common.pmap(run_shard, shards):
         rep.merge(part)
